@@ -44,6 +44,7 @@ structure LsnOK (trans : List Notif) (st : SState) (l : Lsn) : Prop where
   reg : l.regAt ≤ trans.length
   live : l.removed = false → l.seen ++ l.queue = trans.drop l.regAt ∧ l.closed = st.terminal
   gone : l.removed = true → l.seen <+: trans.drop l.regAt
+  cb : l.inCb = if l.busy then 1 else 0
 
 theorem notify_ok (trans : List Notif) (st : SState) (n : Notif) (close : Bool)
     (hst : st.terminal = false) (hlen : trans.length + 1 ≤ listenerCap) (hclose : close = n.to.terminal)
@@ -59,7 +60,7 @@ theorem notify_ok (trans : List Notif) (st : SState) (n : Notif) (close : Bool)
       unfold Lsn.send
       by_cases hr : l.removed = true
       · rw [if_pos hr]
-        refine ⟨rfl, ?_, ?_, ?_⟩
+        refine ⟨rfl, ?_, ?_, ?_, hl.cb⟩
         · have := hl.reg; simp; omega
         · intro h0; rw [hr] at h0; cases h0
         · intro _
@@ -76,7 +77,7 @@ theorem notify_ok (trans : List Notif) (st : SState) (n : Notif) (close : Bool)
           simp at this
           omega
         rw [if_neg (by omega)]
-        refine ⟨rfl, ?_, ?_, ?_⟩
+        refine ⟨rfl, ?_, ?_, ?_, hl.cb⟩
         · have := hl.reg; simp; omega
         · intro _
           refine ⟨?_, ?_⟩
@@ -104,19 +105,48 @@ theorem deliverTo_ok (trans : List Notif) (st : SState) (id : Nat) (ls : List Ls
     · rename_i hc
       split
       · exact h
-      · rename_i n q hq
+      · rename_i hbusy
+        have hb : l.busy = false := by cases hx : l.busy <;> simp_all
+        split
+        · exact h
+        · rename_i n q hq
+          intro x hx
+          simp only [List.mem_cons] at hx
+          rcases hx with rfl | hx
+          · have hr' : l.removed = false := by cases hx : l.removed <;> simp_all
+            obtain ⟨hsq, hcl⟩ := hl.live hr'
+            refine ⟨hl.reg, ?_, ?_, ?_⟩
+            · intro _
+              refine ⟨?_, hcl⟩
+              simp only
+              rw [← hsq, hq]; simp
+            · intro h0; simp [hr'] at h0
+            · have := hl.cb; rw [hb] at this; simp [this]
+          · exact h x (by simp [hx])
+    · intro x hx
+      simp only [List.mem_cons] at hx
+      rcases hx with rfl | hx
+      · exact hl
+      · exact ih' x hx
+
+theorem endTo_ok (trans : List Notif) (st : SState) (id : Nat) (ls : List Lsn)
+    (h : ∀ l ∈ ls, LsnOK trans st l) : ∀ l ∈ endTo id ls, LsnOK trans st l := by
+  induction ls with
+  | nil => simp [endTo]
+  | cons l ls ih =>
+    have hl := h l (by simp)
+    have ih' := ih (fun x hx => h x (by simp [hx]))
+    simp only [endTo]
+    split
+    · split
+      · rename_i hbusy
         intro x hx
         simp only [List.mem_cons] at hx
         rcases hx with rfl | hx
-        · have hr' : l.removed = false := by cases hx : l.removed <;> simp_all
-          obtain ⟨hsq, hcl⟩ := hl.live hr'
-          refine ⟨hl.reg, ?_, ?_⟩
-          · intro _
-            refine ⟨?_, hcl⟩
-            simp only
-            rw [← hsq, hq]; simp
-          · intro h0; simp [hr'] at h0
+        · refine ⟨hl.reg, hl.live, hl.gone, ?_⟩
+          have := hl.cb; rw [hbusy] at this; simp [this]
         · exact h x (by simp [hx])
+      · exact h
     · intro x hx
       simp only [List.mem_cons] at hx
       rcases hx with rfl | hx
@@ -135,7 +165,7 @@ theorem removeFrom_ok (trans : List Notif) (st : SState) (id : Nat) (ls : List L
     · intro x hx
       simp only [List.mem_cons] at hx
       rcases hx with rfl | hx
-      · refine ⟨hl.reg, ?_, ?_⟩
+      · refine ⟨hl.reg, ?_, ?_, hl.cb⟩
         · intro h0; simp at h0
         · intro _
           simp only
@@ -403,7 +433,7 @@ theorem core_step (s : Svc) (e : Ev) (hc : Core s) : Core (step s e) := by
       simp only [List.mem_append, List.mem_singleton] at hl
       rcases hl with hl | rfl
       · exact hc.lsn l hl
-      · refine ⟨by simp, ?_, ?_⟩
+      · refine ⟨by simp, ?_, ?_, rfl⟩
         · intro _
           simp at hterm
           simp [hterm]
@@ -412,6 +442,8 @@ theorem core_step (s : Svc) (e : Ev) (hc : Core s) : Core (step s e) := by
     exact core_lsns s _ hc rfl rfl rfl rfl rfl (removeFrom_ok _ _ id _ hc.lsn) rfl rfl
   | deliver id =>
     exact core_lsns s _ hc rfl rfl rfl rfl rfl (deliverTo_ok _ _ id _ hc.lsn) rfl rfl
+  | deliverEnd id =>
+    exact core_lsns s _ hc rfl rfl rfl rfl rfl (endTo_ok _ _ id _ hc.lsn) rfl rfl
 
 theorem core_run (s : Svc) (evs : List Ev) (hc : Core s) : Core (run s evs) := by
   induction evs generalizing s with
